@@ -315,8 +315,8 @@ def grid_variant_fields(names=None):
 # ---------------------------------------------------------------------------------------------
 # grid 3: trait instructions (C04): every name x item kind x counterpart form x error form
 # ---------------------------------------------------------------------------------------------
-COUNTERPARTS = ['A', 'x::y::A', '::x::A', 'A<T>', "A<'a, T>", 'x::A::<u8>', '(i32, String)', '(i32,)', 'A as {}', 'A as ()', 'A as Unit']
-ERRORS = ['Er', 'x::Er', 'Er<String>', "Er<'a, u8>", 'std::io::Error']
+COUNTERPARTS = ['A', 'x::y::A', '::x::A', 'A<T>', "A<'a, T>", 'x::A::<u8>', '(i32, String)', '(i32,)', '::x::A<u8>', '::x::y::A::<T>', 'A as {}', 'A as ()', 'A as Unit']
+ERRORS = ['Er', 'x::Er', 'Er<String>', "Er<'a, u8>", 'std::io::Error', '::x::Er<u8>']
 
 
 def grid_trait_instrs():
@@ -673,6 +673,33 @@ def trailing_commas(items, rng, n):
     return out
 
 
+def argless_under_switch(items, rng, n):
+    """the same inputs under #[o2o(allow_unknown)] with one member-level mapping instruction emptied: `#[into]`, `#[into()]`,
+    `#[o2o(into)]`, `#[o2o(into())]` - the forms a foreign crate's attribute of the same name would take (C18: the two back-ends reach
+    the argument tokens of a direct attribute by different routes; C15: the switch silences only the two documented rules)"""
+    out = []
+    pool = [it for it in items if isinstance(it, Item)]
+    tries = 0
+    while pool and len(out) < n and tries < 20 * n:
+        tries += 1
+        it = rng.choice(pool).clone()
+        lists = []
+        for m in it.members:
+            lists.append(m.attrs)
+            if isinstance(m, Variant):
+                lists += [f.attrs for f in m.fields]
+        cands = [(lst, i) for lst in lists for i, a in enumerate(lst) if isinstance(a, Attr) and a.name in MEMBER_MAP_NAMES and a.ded is None]
+        if not cands:
+            continue
+        lst, i = rng.choice(cands)
+        lst[i] = lst[i].clone(args=rng.choice([None, '', '']), o2o=rng.random() < 0.25)
+        if not any(isinstance(a, Attr) and a.name == 'allow_unknown' for a in it.attrs):
+            it.attrs.insert(rng.randrange(len(it.attrs) + 1), Attr('allow_unknown', None, o2o=True))
+        it.meta = dict(it.meta, gen='argless_under_switch')
+        out.append(it)
+    return out
+
+
 def toggle_parens(item):
     """C13 (OptionalParenthesizedTokenStream): an instruction without arguments written `name` <-> `name()`, bare or inside #[o2o(..)]"""
     it = item.clone()
@@ -891,7 +918,7 @@ def _expand_one(a, ghost_pairs):   # noqa: F811  (extends the earlier definition
 # ---------------------------------------------------------------------------------------------
 # C03: flattening - child tries (incl. prefix-named siblings), parameterised and bare parents
 # ---------------------------------------------------------------------------------------------
-NODE_NAMES = ['p', 'pq', 'p2', 'base', 'base_entity', 'q', 'r', 'n']
+NODE_NAMES = ['p', 'pq', 'p2', 'base', 'base_entity', 'q', 'r', 'n', 'ort', 'größe', 'öl']      # non-ASCII identifiers: byte offsets are not char offsets
 
 
 # type forms of the intermediate structs.  `G<i32> { .. }` is a type but not an expression (the literal needs the turbofish), so the
@@ -2200,8 +2227,9 @@ def c15_injectors():
         if not fs or not _has_kind(it, FROMK) or it.shape != 'named':
             return None
         f = rng.choice(fs)
-        f.attrs = [Attr('parent', rng.choice(['[parent(x)] inner', 'y, [parent([parent(v)] core: Core)] base', '[parent([parent(v)] core)] base: Base']))]
-        return it, r"Field '(inner|base|core)' should have type here, e\.g\. '(inner|base|core): SomeStruct'"
+        f.attrs = [Attr('parent', rng.choice(['[parent(x)] inner', 'y, [parent([parent(v)] core: Core)] base', '[parent([parent(v)] core)] base: Base',
+                                              '[parent([parent([parent(x)] inner: Inner)] outer)] child: Child', '[parent([parent([parent(x)] inner)] outer: Outer)] child']))]
+        return it, r"Field '(inner|base|core|outer|child)' should have type here, e\.g\. '(inner|base|core|outer|child): SomeStruct'"
 
     @add(10)
     def unnamed_nested_member(it, rng):
@@ -2295,7 +2323,7 @@ def astype_attr(ty, member=None, ded=None):
     return a
 
 
-C01_EXPRS = ['~.clone()', '~ + 1', 'f(~, @.z)', '@.k', 'g(&~)', '~.to_string()', '-~']
+C01_EXPRS = ['~.clone()', '~ + 1', 'f(~, @.z)', '@.k', 'g(&~)', '~.to_string()', '-~', 'tot({ for x in @.items.iter() { go(x, ~) } })', 'if @.k > 0 { ~ } else { -~ }']
 
 
 def c01_cases(rng, n, index_rename_on_tuple_dest=False):
@@ -2357,7 +2385,7 @@ def c01_cases(rng, n, index_rename_on_tuple_dest=False):
                     fa.append(gattr(rng.choice(GHOSTS), default=None, ded=ded))
                 elif r < 0.9:
                     fa.append(astype_attr(rng.choice(['i64', 'f32']), member=member if rng.random() < 0.5 else None, ded=ded))
-            fields.append(Field(('a%d' % j) if named else None, rng.choice(['i32', 'u8']), fa))
+            fields.append(Field(('a%d' % j) if named else None, rng.choice(['i32', 'u8', 'f64']), fa))
         # tuple struct -> named destination needs names: give every live field one
         gh = []
         if rng.random() < 0.35:
@@ -2551,7 +2579,7 @@ def c08_cases(rng, n):
         nm = rng.choice(names)
         spec = {'vars': None, 'attribute': None, 'impl_attribute': None, 'inner_attribute': None, 'tail': None}
         if rng.random() < 0.6:
-            spec['vars'] = [('k%d' % j, rng.choice(['1', '@.x + 1', 'mk(@)', 'two(2, @)'])) for j in range(rng.choice([1, 1, 2, 3]))]
+            spec['vars'] = [('k%d' % j, rng.choice(['1', '@.x + 1', 'mk(@)', 'two(2, @)', 'tot({ for x in @.items.iter() { go(x) } })'])) for j in range(rng.choice([1, 1, 2, 3]))]
         for a, choices in (('attribute', ['inline', 'allow(unused)', 'doc = "x"']), ('impl_attribute', ['cfg(any())', 'allow(dead_code)']),
                            ('inner_attribute', ['allow(unused_variables)', 'allow(clippy::all)'])):
             if rng.random() < 0.35:
